@@ -19,7 +19,7 @@ void run(const std::string & tn)
   const double band = F ? 1e-2 : 1e-5;
   const double epsS = std::numeric_limits<S>::epsilon();
 
-  auto Ts = tangents<R, S>(AlphaOpts::full());
+  auto Ts = tangents<R, S>(AlphaOpts::dense());
   mc::explore("C02/exp/" + tn, Ts.size(), [&](mc::Case & c) {
     const auto & t = Ts[c.idx];
     const auto a   = make<G>(t);
@@ -65,7 +65,7 @@ void run(const std::string & tn)
   });
 
   // elements given by coefficients (not produced by the library's exp)
-  auto Es = elements<R, S>(AlphaOpts::full().upto(2 * PI + 1e-3));
+  auto Es = elements<R, S>(AlphaOpts::dense().upto(2 * PI + 1e-3));
   mc::explore("C02/log/" + tn, Es.size(), [&](mc::Case & c) {
     const G g = make<G>(Es[c.idx]);
     c.desc    = [&] { return "g=" + vstr(g.coeffs()); };
